@@ -252,7 +252,14 @@ func (st *state) execute(label string, upFront bool, order []string) (res execRe
 		res.inconsistent = true
 	}
 	for _, id := range order {
-		t := b.reg[id]
+		var t graphql.Type
+		switch id {
+		case "<nil>":
+		case "<typednil>":
+			t = (*graphql.Object)(nil)
+		default:
+			t = b.reg[id]
+		}
 		c.AddExtra("appendtype_calls", 1)
 		var aerr error
 		if st.guard("AppendType("+id+")", func() { aerr = s.AppendType(t) }) {
@@ -272,7 +279,9 @@ func (st *state) execute(label string, upFront bool, order []string) (res execRe
 			}
 			return
 		}
-		handed = append(handed, t)
+		if !schemacheck.IsNil(t) {
+			handed = append(handed, t)
+		}
 		if st.check("AppendType("+id+")", s, handed) {
 			res.inconsistent = true
 		}
